@@ -633,25 +633,29 @@ func monitorC04(c fw.Case, outs []string) []string {
 			}
 			// the master must be a relation whose connection is up (a connection that is down while the
 			// relation stays listed keeps its master: nothing can be sent, nothing has to have converged)
+			// what the device must hold: the live stored values, except where the device refused the change
+			// that wrote (or deleted) them - there it keeps what the last applied change left (the applied
+			// side map is the controller's own record of that), under a refused subtree delete too
 			want := map[string]string{}
+			failed := func(idx int) bool {
+				p := s.Prop[fmt.Sprintf("%d-%d", t, idx)]
+				return p != nil && p.Apply == "f"
+			}
 			for path, pv := range cfg.View {
-				if pv.Deleted {
-					// a delete the device refused leaves what the last applied change put there
-					if p := s.Prop[fmt.Sprintf("%d-%d", t, pv.Index)]; p != nil && p.Apply == "f" {
-						if av, ok := cfg.Vals[path]; ok && !av.Deleted {
-							want[path] = av.Value
-						}
-					}
+				if !pv.Deleted && !failed(pv.Index) {
+					want[path] = pv.Value
+				}
+			}
+			for path, av := range cfg.Vals {
+				if _, ok := want[path]; ok || av.Deleted {
 					continue
 				}
-				if p := s.Prop[fmt.Sprintf("%d-%d", t, pv.Index)]; p != nil && p.Apply == "f" {
-					// the device refused this change: it keeps what the last applied change left there
-					if av, ok := cfg.Vals[path]; ok && !av.Deleted {
+				for p2, pv2 := range cfg.View {
+					if failed(pv2.Index) && elemPrefix(unhex(path), unhex(p2)) {
 						want[path] = av.Value
+						break
 					}
-					continue
 				}
-				want[path] = pv.Value
 			}
 			got := s.Dev[t]
 			for path, v := range want {
